@@ -81,11 +81,15 @@ class SuffixTrie(object):
             if node.children is None:
                 break
 
-            child = node.children.get(part)
+            # Wildcards: match exactly one label, even if this label
+            # also starts a longer rule
+            wildcard = node.children.get("*")
 
-            # Wildcards
-            if child is None:
-                child = node.children.get("*")
+            if wildcard is not None and wildcard.leaf:
+                suffix_length = current_length + 1
+                match = wildcard
+
+            child = node.children.get(part)
 
             # If the current part is not in current node's children, we can stop
             if child is None:
